@@ -15,7 +15,7 @@ import (
 
 type calRec struct {
 	year, month, day, hour, minute, second, weekday, dim, days *Term
-	sec *Term // seconds since 1970-01-01T00:00 of the wall-clock reading
+	sec                                                        *Term // seconds since 1970-01-01T00:00 of the wall-clock reading
 }
 
 // calKey identifies the calendar reading of an instant in a zone (nil = UTC).
@@ -147,8 +147,8 @@ func (in *Interp) shiftCal(b *calRec, off *Term) *calRec {
 	offp := tc.WithRange(tc.Add(off, c64(50400)), 0, 100800)
 	totU := tc.Add(tc.Add(tc.Mul(b.hour, c64(3600)), tc.Mul(b.minute, c64(60))), offp)
 	totU = tc.WithRange(totU, 0, 86340+100800)
-	back := tc.Ult(totU, c64(50400))    // previous local day
-	fwd := tc.Ule(c64(136800), totU)    // next local day
+	back := tc.Ult(totU, c64(50400)) // previous local day
+	fwd := tc.Ule(c64(136800), totU) // next local day
 	tot := tc.Ite(back, tc.Add(totU, c64(36000)), tc.Ite(fwd, tc.Sub(totU, c64(136800)), tc.Sub(totU, c64(50400))))
 	tot = tc.WithRange(tot, 0, 86399)
 	h2, rem := tc.DivModConst(tot, 3600, false)
